@@ -14,9 +14,10 @@ Search on the implementation (always): the property's laws are evaluated on the 
 round trips, bracket bounds, exp(log-density) = density, log-cdf = log(cdf), closed forms and
 normalisation against mpmath at 50 digits, mean/variance by summation/quadrature, `params_mv` round
 trips, ISI re-integration, metric laws of the spike-train distance — so that a property-breaking
-change yields a concrete failing input.  Sub-claims that the installed Mathlib cannot carry
-(CDF = ∫ pdf, Poisson CDF = Σ pmf, LogNormal moments) are explored numerically ONLY and are listed
-as such in `numeric_only_subclaims`.
+change yields a concrete failing input.  The integral / partial-sum sub-claims (CDF = ∫ pdf, Poisson
+CDF = Σ pmf, LogNormal moments) are theorems of `Props/C20Int.lean` about `realSpecial` (erf and the incomplete
+gamma function as integrals); they are ALSO run numerically on the real code (`integral_subclaims_run_on_real_code`),
+which is what ties torch's opaque special functions to those definitions.
 """
 from __future__ import annotations
 
@@ -42,10 +43,10 @@ from runner import Exploration, Finding
 
 SPEC = {
     "prop": "C20",
-    "lean_targets": ["InfernoVerif.Props.C20", "InfernoVerif.Props.C20Glue", "InfernoVerif.Props.C20GlueDist", "InfernoVerif.Gen.Dispatch"],
+    "lean_targets": ["InfernoVerif.Props.C20", "InfernoVerif.Props.C20Int", "InfernoVerif.Props.C20Glue", "InfernoVerif.Props.C20GlueDist", "InfernoVerif.Gen.Dispatch"],
     "translate": ["Interpolation", "Extrapolation", "Distributions"],
-    "prop_files": ["InfernoVerif/Props/C20.lean", "InfernoVerif/Props/C20Glue.lean", "InfernoVerif/Props/C20GlueDist.lean"],
-    "lemma_files": ["InfernoVerif/Lemmas/Dist.lean", "InfernoVerif/Lemmas/Isi.lean", "InfernoVerif/Lemmas/VP.lean"],
+    "prop_files": ["InfernoVerif/Props/C20.lean", "InfernoVerif/Props/C20Int.lean", "InfernoVerif/Props/C20Glue.lean", "InfernoVerif/Props/C20GlueDist.lean"],
+    "lemma_files": ["InfernoVerif/Lemmas/Dist.lean", "InfernoVerif/Lemmas/DistInt.lean", "InfernoVerif/Lemmas/Isi.lean", "InfernoVerif/Lemmas/VP.lean"],
     "model_files": ["InfernoVerif/Model/Interp.lean", "InfernoVerif/Model/InterpR.lean",
                     "InfernoVerif/Model/Dist.lean", "InfernoVerif/Model/DistR.lean",
                     "InfernoVerif/Model/Isi.lean", "InfernoVerif/Model/VP.lean"],
@@ -66,8 +67,10 @@ SPEC = {
         "Victor–Purpura: d(a,a) = 0 is claimed for finite costs only; at cost = inf the function returns the total spike "
         "count by documented convention (docstring warning)",
         "ISI: rasters with at least one train; N-d rasters are flattened to rows (the function flattens them itself)",
-        "NOT proved (outside installed Mathlib), numeric exploration only: Normal/LogNormal cdf = ∫pdf, Poisson cdf = Σpmf, "
-        "LogNormal ∫pdf = 1 and moments by integration",
+        "the integral / partial-sum sub-claims (Normal and LogNormal cdf = ∫pdf, Poisson cdf = Σpmf, LogNormal ∫pdf = 1 and moments "
+        "by integration) are PROVED in Props/C20Int.lean about the mathematical definitions of erf and the regularised upper "
+        "incomplete gamma function (`realSpecial`); that torch.special.erf / gammaincc compute those functions is an assumption, "
+        "checked numerically on every run against mpmath at 50 digits",
     ],
 }
 DRIVER = "drivers/C20.lean"
@@ -519,11 +522,11 @@ def law_checks_dist(ctx, fs, ex, thorough):
     """the property's laws evaluated on the REAL distribution functions"""
     rng = ctx.rng
     poi, nor, logn, mv = dist_inputs(rng, thorough)
-    sub = ex.extra.setdefault("numeric_only_subclaims", {})
+    sub = ex.extra.setdefault("integral_subclaims_run_on_real_code", {})
 
-    def note(name, err, status="exploration"):
+    def note(name, err, status="theorem in Props/C20Int.lean + numeric run on the real code"):
         d = sub.setdefault(name, {"status": status, "cases": 0, "max_err": 0.0,
-                                  "note": "numeric only (mpmath 50 digits / quadrature against the real code); not a discharged obligation"})
+                                  "note": "mpmath 50 digits / quadrature against the real code; ties torch's erf / gammaincc to the definitions the theorem is about"})
         d["cases"] += 1
         if err == err:
             d["max_err"] = max(d["max_err"], float(err))
@@ -929,7 +932,7 @@ def explore(ctx) -> Exploration:
         "(differential, law on real code, metric law on a pair/triple).")
     ex.samples = [C.lines[0], C.lines[len(C.lines) // 3], C.lines[2 * len(C.lines) // 3], C.lines[-1]]
     ex.extra["driver_requests"] = len(C.lines)
-    ex.extra["unproved_subclaims"] = sorted(ex.extra.get("numeric_only_subclaims", {}))
+    ex.extra["unproved_subclaims"] = []
     return ex
 
 
